@@ -395,38 +395,41 @@ theorem ratReprCmpFbig_abs_spec {o : Oracle} (ho : o.Sound) (n : Int) {d : Nat} 
     simp only [if_true, Bool.true_or]
     by_cases he : e > 0 <;> simp [he, XVal.absCmp, XVal.abs, XVal.cmp]
 
--- ------------------------------------------------------------------ AbsOrd FBig × UBig/IBig (partial)
+-- ------------------------------------------------------------------ AbsOrd FBig × UBig/IBig
 
-/-- `repr_cmp_ubig::<B, true>` (AbsOrd FBig/Repr × UBig) — PARTIAL: only for a non-negative
-    significand.  Full statement (false, see `floatReprCmpUbig_abs_counterexample`):
-    `∀ s, some (floatReprCmpUbig o true B s e r) = XVal.absCmp …` -/
-theorem floatReprCmpUbig_abs_partial {o : Oracle} (ho : o.Sound) {B : Nat} (hB : 2 ≤ B) (s e : Int)
-    (r p : Nat) (hs : 0 ≤ s) :
+/-- the exact step of `repr_cmp_ubig/ibig::<B, true>` is the cross-multiplied comparison of the
+    magnitudes -/
+theorem float_exact_abs_eq (B : Nat) (s e r : Int) :
+    (if e < 0 then absCmpInt s (shlDigits B r (-e).toNat) else absCmpInt (shlDigits B s e.toNat) r)
+      = compare (|(floatFrac B s e).1| * ((1 : Nat) : Int)) (|r| * ((floatFrac B s e).2 : Int)) := by
+  have hB : (0 : Int) ≤ (B : Int) := by positivity
+  unfold floatFrac shlDigits
+  split <;> simp [absCmpInt_eq, abs_mul, abs_pow, abs_of_nonneg hB]
+
+/-- `repr_cmp_ubig::<B, true>` (AbsOrd FBig/Repr × UBig): the order of the magnitudes -/
+theorem floatReprCmpUbig_abs_spec {o : Oracle} (ho : o.Sound) {B : Nat} (hB : 2 ≤ B) (s e : Int)
+    (r p : Nat) :
     some (floatReprCmpUbig o true B s e r) = XVal.absCmp (Num.fbig B s e p).value (Num.ubig r).value := by
   unfold floatReprCmpUbig
   cases hinf : fIsInf s e
   · rw [fbig_value_fin p hinf]
-    simp only [Num.value, abs_value_cmp, Bool.false_eq_true, if_false, Bool.not_true, Bool.false_and]
+    simp only [Num.value, abs_value_cmp, Bool.false_eq_true, if_false, Bool.not_true, Bool.false_and,
+      if_true]
     congr 1
     have hd := floatFrac_den_pos hB s e
     have h1 := ho.flt B s e hB
     have h2 := ho.nat r
     rw [fltMag_eq_frac hB] at h1
     rw [nat_mag] at h2
-    have hp := floatFrac_num_nonneg (B := B) e hs
-    have key := filter_skeleton_abs hd Nat.one_pos h1 h2
-      (exact := if e < 0 then compare s (shlDigits B (r : Int) (-e).toNat)
-                else compare (shlDigits B s e.toNat) (r : Int))
-      (by rw [float_exact_eq, abs_of_nonneg hp, abs_of_nonneg (by positivity : (0 : Int) ≤ (r : Int))])
+    have key := filter_skeleton_abs hd Nat.one_pos h1 h2 (float_exact_abs_eq B s e (r : Int))
     simpa [Sign.app] using key
   · rw [fbig_value_inf p hinf]
     simp only [if_true, Bool.or_true, Num.value]
     by_cases he : e > 0 <;> simp [he, XVal.absCmp, XVal.abs, XVal.cmp]
 
-/-- `repr_cmp_ibig::<B, true>` (AbsOrd FBig/Repr × IBig) — PARTIAL: only when neither the
-    significand nor the integer is negative (see `floatReprCmpIbig_abs_counterexample`). -/
-theorem floatReprCmpIbig_abs_partial {o : Oracle} (ho : o.Sound) {B : Nat} (hB : 2 ≤ B) (s e r : Int)
-    (p : Nat) (hs : 0 ≤ s) (hr : 0 ≤ r) :
+/-- `repr_cmp_ibig::<B, true>` (AbsOrd FBig/Repr × IBig): the order of the magnitudes -/
+theorem floatReprCmpIbig_abs_spec {o : Oracle} (ho : o.Sound) {B : Nat} (hB : 2 ≤ B) (s e r : Int)
+    (p : Nat) :
     some (floatReprCmpIbig o true B s e r) = XVal.absCmp (Num.fbig B s e p).value (Num.ibig r).value := by
   unfold floatReprCmpIbig
   cases hinf : fIsInf s e
@@ -438,9 +441,7 @@ theorem floatReprCmpIbig_abs_partial {o : Oracle} (ho : o.Sound) {B : Nat} (hB :
     have h2 := ho.nat r.natAbs
     rw [fltMag_eq_frac hB] at h1
     rw [natAbs_mag] at h2
-    have hp := floatFrac_num_nonneg (B := B) e hs
-    exact filter_skeleton_abs hd Nat.one_pos h1 h2
-      (by rw [float_exact_eq, abs_of_nonneg hp, abs_of_nonneg hr])
+    exact filter_skeleton_abs hd Nat.one_pos h1 h2 (float_exact_abs_eq B s e r)
   · rw [fbig_value_inf p hinf]
     simp only [if_true, Bool.or_true, Num.value]
     by_cases he : e > 0 <;> simp [he, XVal.absCmp, XVal.abs, XVal.cmp]
